@@ -121,7 +121,8 @@ func synthText(r *rng, n int) []byte {
 		sb.WriteString(r.pick(synthSeps))
 		if r.chance(1, 25) {
 			sb.WriteString(r.pick([]string{"Copyright (c) 2020 Foo Bar\n", "copyright 1999, x\n", "  (c) Copyright [yyyy] name\n",
-				"2006-01-27\n", "Copyright: 2020, foo\n", "© Copyright 2011 x\n", "Copyright (c) [dates of first publication] Y\n"}))
+				"2006-01-27\n", "Copyright: 2020, foo\n", "© Copyright 2011 x\n", "Copyright (c) [dates of first publication] Y\n",
+				"版权所有 Copyright 2020 Foo\n", "Авт. copyright (c) 2019 Иван\n", "©®™ COPYRIGHT 1999 Z\n", "日本語のの copyright 2001 six-rune lead-in\n"}))
 		}
 	}
 	return []byte(sb.String())
